@@ -7,7 +7,7 @@ Notation V3R := (V3 R).
 
 (** unfold every vector operation down to real arithmetic *)
 Ltac vunfold :=
-  unfold transform_point, inverse_transform_point, mulTV, mulMV, transpose, col, ident, nthv,
+  unfold transform_point, inverse_transform_point_code, inverse_transform_point, mulTV, mulMV, transpose, col, ident, nthv,
          norm, norm2, cross, dot, vmul, vneg, vdivs, vscale, vsub, vadd, ex, ey, ez, vzero in *;
   cbn [vx vy vz r0 r1 r2 rot trans add sub mul div opp zero one ROps] in *.
 Ltac vdestruct :=
